@@ -3,6 +3,7 @@
 package gen
 
 import (
+	"errors"
 	"bytes"
 	"fmt"
 	"hash/fnv"
@@ -45,8 +46,23 @@ func (d *BytesData) UnmarshalBinary(b []byte) error { d.B = append([]byte(nil), 
 // Clone implements channel.Data.
 func (d *BytesData) Clone() channel.Data { return &BytesData{B: append([]byte(nil), d.B...)} }
 
-// DataApp is a StateApp that carries BytesData and accepts every transition.
+// DataApp is a StateApp that carries BytesData and accepts every state except those whose data
+// starts with RefusedMarker (the harness' way to make "the app refuses" reachable).
 type DataApp struct{ id channel.AppID }
+
+// RefusedMarker starts data that DataApp refuses in ValidInit and ValidTransition.
+var RefusedMarker = []byte{0xde, 0xad, 'N', 'O'}
+
+// RefusedData returns data that DataApp refuses.
+func RefusedData(r *rand.Rand) channel.Data {
+	return &BytesData{B: append(append([]byte(nil), RefusedMarker...), byte(r.Intn(256)))}
+}
+
+// Refuses tells whether the app refuses s (as initial state or as successor).
+func (a *DataApp) Refuses(s *channel.State) bool {
+	d, ok := s.Data.(*BytesData)
+	return ok && len(d.B) >= len(RefusedMarker) && string(d.B[:len(RefusedMarker)]) == string(RefusedMarker)
+}
 
 // Def implements channel.App.
 func (a *DataApp) Def() channel.AppID { return a.id }
@@ -55,12 +71,20 @@ func (a *DataApp) Def() channel.AppID { return a.id }
 func (a *DataApp) NewData() channel.Data { return &BytesData{} }
 
 // ValidTransition implements channel.StateApp.
-func (a *DataApp) ValidTransition(*channel.Params, *channel.State, *channel.State, channel.Index) error {
+func (a *DataApp) ValidTransition(_ *channel.Params, _, to *channel.State, _ channel.Index) error {
+	if a.Refuses(to) {
+		return errors.New("DataApp: refused data")
+	}
 	return nil
 }
 
 // ValidInit implements channel.StateApp.
-func (a *DataApp) ValidInit(*channel.Params, *channel.State) error { return nil }
+func (a *DataApp) ValidInit(_ *channel.Params, s *channel.State) error {
+	if a.Refuses(s) {
+		return errors.New("DataApp: refused data")
+	}
+	return nil
+}
 
 var (
 	// Payment is a registered payment app with a fixed definition.
